@@ -94,12 +94,11 @@ class LetFiller(Visitor):
     def visit_NamedQubit(self, qubit):
         """Visit a named qubit that may possibly have its index
         remapped. Doing so will change the name of the qubit."""
-        if isinstance(qubit.alias_index, Constant):
-            new_index = self.resolve_constant(qubit.alias_index)
-            new_from = self.visit(qubit.alias_from)
-            return new_from[new_index]
-        else:
+        new_index = self.visit(qubit.alias_index)
+        new_from = self.visit(qubit.alias_from)
+        if new_index is qubit.alias_index and new_from is qubit.alias_from:
             return qubit
+        return new_from[new_index]
 
     def visit_Register(self, reg):
         """Visit either a fundamental register or a map alias. Either may
@@ -107,7 +106,7 @@ class LetFiller(Visitor):
         if reg.fundamental:
             if isinstance(reg.size, Constant):
                 new_size = self.resolve_constant(reg.size)
-                return ["register", reg.name, new_size]
+                return Register(reg.name, new_size)
             else:
                 return reg
         else:
@@ -164,9 +163,8 @@ class RegisterVisitor(LetFiller):
     def visit_NamedQubit(self, qubit):
         """Visit a named qubit that may possibly have its index
         remapped. Doing so will change the name of the qubit."""
-        if isinstance(qubit.alias_index, Constant):
-            new_index = self.resolve_constant(qubit.alias_index)
-            new_from = self.visit(qubit.alias_from)
-            return NamedQubit(qubit.name, new_from, new_index)
-        else:
+        new_index = self.visit(qubit.alias_index)
+        new_from = self.visit(qubit.alias_from)
+        if new_index is qubit.alias_index and new_from is qubit.alias_from:
             return qubit
+        return NamedQubit(qubit.name, new_from, new_index)
